@@ -309,3 +309,110 @@ Proof.
   exists v. split; [reflexivity|]. split; [exact Hv1|].
   apply orb_prop in Hv2. destruct Hv2 as [Hv2|Hv2]; apply N.eqb_eq in Hv2; auto.
 Qed.
+
+(* ---------------------------------------------------------------------------------------- *)
+(* sessions: what is signed is the digest of the session's batch, what is submitted is that batch *)
+
+Lemma bytes_eqb_refl a : bytes_eqb a a = true.
+Proof. induction a as [|x a IH]; [reflexivity|]. cbn [bytes_eqb]. rewrite N.eqb_refl, IH. reflexivity. Qed.
+
+Lemma bytes_eqb_eq a b : bytes_eqb a b = true <-> a = b.
+Proof.
+  split; [|intros ->; apply bytes_eqb_refl].
+  revert b; induction a as [|x a IH]; intros [|y b] E; cbn [bytes_eqb] in E; try discriminate.
+  - reflexivity.
+  - apply andb_prop in E as [E1 E2]. apply N.eqb_eq in E1. apply IH in E2. subst. reflexivity.
+Qed.
+
+Lemma proposal_eqb_eq p q : proposal_eqb p q = true <-> p = q.
+Proof.
+  split.
+  - unfold proposal_eqb. intros E.
+    apply andb_prop in E as [E E4]. apply andb_prop in E as [E E3]. apply andb_prop in E as [E1 E2].
+    apply N.eqb_eq in E1. apply N.eqb_eq in E2. apply bytes_eqb_eq in E3. apply bytes_eqb_eq in E4.
+    destruct p, q; cbn in *; subst; reflexivity.
+  - intros ->. unfold proposal_eqb. rewrite !N.eqb_refl, !bytes_eqb_refl. reflexivity.
+Qed.
+
+Lemma proposals_eqb_eq a b : proposals_eqb a b = true <-> a = b.
+Proof.
+  split.
+  - revert b; induction a as [|p a IH]; intros [|q b] E; cbn [proposals_eqb] in E; try discriminate.
+    + reflexivity.
+    + apply andb_prop in E as [E1 E2]. apply proposal_eqb_eq in E1. apply IH in E2. subst. reflexivity.
+  - intros <-. induction a as [|p a IH]; [reflexivity|]. cbn [proposals_eqb].
+    rewrite IH. rewrite (proj2 (proposal_eqb_eq p p) eq_refl). reflexivity.
+Qed.
+
+Lemma same_commitment_iff H d a b : same_commitment H d a b = true <-> digest H d a = digest H d b.
+Proof.
+  unfold same_commitment. split.
+  - intros E. apply orb_prop in E as [E|E].
+    + apply proposals_eqb_eq in E. subst. reflexivity.
+    + apply bytes_eqb_eq. exact E.
+  - intros E. apply orb_true_intro. right. apply bytes_eqb_eq. exact E.
+Qed.
+
+Lemma session_ok_model H d b : session_ok H d (model_session H d b) = true.
+Proof.
+  unfold session_ok, model_session. cbn [s_batch s_signed s_submitted].
+  rewrite bytes_eqb_refl. apply (proj2 (same_commitment_iff H d b b)). reflexivity.
+Qed.
+
+Lemma session_ok_sound H d s : session_ok H d s = true ->
+  s_signed s = digest H d (s_batch s) /\ digest H d (s_submitted s) = s_signed s.
+Proof.
+  unfold session_ok. intros E. apply andb_prop in E as [E1 E2].
+  apply bytes_eqb_eq in E1. apply same_commitment_iff in E2. split; congruence.
+Qed.
+
+Lemma signed_is_submitted H (HL : forall x, length (H x) = 32%nat) d s :
+  wf_domain d = true -> forallb wf_proposal (s_batch s) = true -> forallb wf_proposal (s_submitted s) = true ->
+  session_ok H d s = true ->
+  s_signed s = digest H d (s_batch s) /\ digest H d (s_submitted s) = s_signed s /\
+  (s_submitted s = s_batch s \/ exists x y, x <> y /\ H x = H y).
+Proof.
+  intros Hd Hb Hs Hok. destruct (session_ok_sound H d s Hok) as [E1 E2].
+  split; [exact E1|]. split; [exact E2|].
+  destruct (digest_injective_or_collision H HL d d (s_submitted s) (s_batch s)
+              (wf_domain_wfd d Hd) (wf_domain_wfd d Hd) (forallb_wfp _ Hs) (forallb_wfp _ Hb)) as [E|C].
+  - congruence.
+  - left. congruence.
+  - right. exact C.
+Qed.
+
+(* a session whose submitted batch differs from its batch is rejected (unless H collides) *)
+Lemma session_not_ok_if_differs H (HL : forall x, length (H x) = 32%nat) d s :
+  wf_domain d = true -> forallb wf_proposal (s_batch s) = true -> forallb wf_proposal (s_submitted s) = true ->
+  s_submitted s <> s_batch s -> session_ok H d s = true -> exists x y, x <> y /\ H x = H y.
+Proof.
+  intros Hd Hb Hs Hne Hok.
+  destruct (signed_is_submitted H HL d s Hd Hb Hs Hok) as (_ & _ & [E|C]); [contradiction|exact C].
+Qed.
+
+(* ---------------------------------------------------------------------------------------- *)
+(* the digest as a function of its arguments only *)
+
+Lemma multi_ok_sound ds seen : multi_ok ds seen = true ->
+  forall i x, In (i, x) seen -> nth_error ds i = Some x.
+Proof.
+  unfold multi_ok. intros E i x Hin. rewrite forallb_forall in E. specialize (E (i, x) Hin).
+  cbn [fst snd] in E. destruct (nth_error ds i) as [d|]; [|discriminate].
+  apply bytes_eqb_eq in E. subst. reflexivity.
+Qed.
+
+(* whatever the history (any sequence of tuple numbers, with repetitions, in any interleaving): a
+   function of the arguments answers every query for tuple i with ds[i] and is accepted *)
+Lemma multi_ok_model ds idxs : (forall i, In i idxs -> (i < length ds)%nat) ->
+  multi_ok ds (map (fun i => (i, nth i ds [])) idxs) = true.
+Proof.
+  intros Hlt. unfold multi_ok. apply forallb_forall. intros x Hin.
+  apply in_map_iff in Hin as (i & <- & Hi). cbn [fst snd].
+  rewrite (nth_error_nth' ds [] (Hlt i Hi)). apply bytes_eqb_refl.
+Qed.
+
+Lemma session_ok_iff H d s : session_ok H d s = true <->
+  (digest H d (s_batch s) = s_signed s /\ digest H d (s_submitted s) = digest H d (s_batch s)).
+Proof.
+  unfold session_ok. rewrite andb_true_iff, bytes_eqb_eq, same_commitment_iff. reflexivity.
+Qed.
